@@ -1,5 +1,6 @@
 from __future__ import annotations
 
+import re
 from dataclasses import dataclass
 from typing import Awaitable, Callable, Dict, List, Optional, Tuple, Type, Union
 
@@ -37,6 +38,19 @@ BUFFER_LOW_WATER = BUFFER_HIGH_WATER / 2
 
 class BufferCompleteError(Exception):
     pass
+
+
+HEADER_NAME = re.compile(rb"^[!#$%&'*+\-.^_`|~0-9a-zA-Z]+$")
+
+
+def _validate_h2_headers(headers: List[Tuple[bytes, bytes]]) -> None:
+    # h2 refuses these as well, but only after it has noted the headers
+    # as sent: what follows (the body) would be sent without them.
+    for name, value in headers:
+        if HEADER_NAME.match(name) is None or (
+            name.lower() == b"te" and value.lower() != b"trailers"
+        ):
+            raise ValueError(f"{name.decode('latin1')} is not a valid HTTP/2 header")
 
 
 @dataclass
@@ -265,6 +279,7 @@ class H2Protocol:
     async def stream_send(self, event: StreamEvent) -> None:
         try:
             if isinstance(event, (InformationalResponse, Response)):
+                _validate_h2_headers(event.headers)
                 self.connection.send_headers(
                     event.stream_id,
                     [(b":status", b"%d" % event.status_code)]
@@ -295,6 +310,7 @@ class H2Protocol:
                     # Emptied as the connection has closed, not as the
                     # body has been sent: this is not its end.
                     return
+                _validate_h2_headers(event.headers)
                 self.connection.send_headers(event.stream_id, event.headers, end_stream=True)
                 await self._flush()
             elif isinstance(event, StreamClosed):
